@@ -54,3 +54,12 @@ def extractByteRangesConcat (b : Bytes) (rs : List ByteRange) : Option Bytes :=
   (extractByteRanges b rs).map List.flatten
 
 end Zarrs
+
+namespace Zarrs
+/-- the truncated slice a store may return for a range reaching outside the value (C08 tolerance) -/
+def ByteRange.extractTrunc (r : ByteRange) (b : Bytes) : Bytes :=
+  match r with
+  | .fromStart o (some l) => slice b o (min (o + l) b.length)
+  | .fromStart o none => slice b o b.length
+  | .suffix l => slice b (b.length - l) b.length
+end Zarrs
